@@ -1128,6 +1128,12 @@ V('v17.20b', 'C17', 'F', 'C17.R6', 'the lengths of the name lists are compared, 
   (XMODEL, 'TracerMixin.trace_t', "        if current.is_empty() or reset or list(current.names) != list(names):", "        if current.is_empty() or reset or len(current.names) != len(results):"))
 V('v17.s6', 'C17', 'S', None, 'the names are compared as tuples, through a local',
   (XMODEL, 'TracerMixin.trace_t', "        if current.is_empty() or reset or list(current.names) != list(names):", "        same = tuple(current.names) == tuple(names)\n        if current.is_empty() or reset or not same:"))
+V('v17.6b', 'C17', 'F', 'C17.R6', 'kept Trace: names compared as sets (order forgotten)',
+  (XMODEL, 'TracerMixin.trace_t', "list(current.names) != list(names)", "set(current.names) != set(names)"))
+V('v17.6c', 'C17', 'F', 'C17.R6', 'kept Trace: names compared sorted',
+  (XMODEL, 'TracerMixin.trace_t', "list(current.names) != list(names)", "sorted(current.names) != sorted(names)"))
+V('v17.s7', 'C17', 'S', None, 'kept Trace: names compared as tuples',
+  (XMODEL, 'TracerMixin.trace_t', "list(current.names) != list(names)", "tuple(current.names) != tuple(names)"))
 # ---------------------------------------------------------------------------
 # C18
 # ---------------------------------------------------------------------------
